@@ -59,13 +59,13 @@ def label (pre post : Option Pc) : String :=
   match pre, post with
   | none, _ => "?"
   | some .done, _ => "-"
-  | some (.locking _), some (.unlocking _) => "f"
-  | _, some (.locking _) => "A"
+  | some .locking, some .unlocking => "f"
+  | _, some .locking => "A"
   | _, some (.checked true) => "c+"
   | _, some (.checked false) => "c-"
   | _, some .applied => "a"
   | _, some .published => "p"
-  | _, some (.unlocking _) => "D"
+  | _, some .unlocking => "D"
   | _, some .done => "."
   | _, none => "?"
 
